@@ -191,9 +191,6 @@ fn run_otlp(line: &str) -> String {
     let Some(a) = parse_case(line, "otlp", 2) else { return "bad-case".into() };
     let Some(signal) = a[0].as_atom().and_then(Signal::parse) else { return "bad-case".into() };
     let Some(d) = EventD::parse(&a[1]) else { return "bad-case".into() };
-    if signal != Signal::Logs {
-        return "bad-case".into();
-    }
     let sent = case::with_event(&d, |evt| {
         (otlp::send(signal, Encoding::Proto, evt), otlp::send(signal, Encoding::Json, evt))
     });
@@ -206,7 +203,8 @@ fn run_otlp(line: &str) -> String {
         (Sent::Body(pb), Sent::Body(jb)) => {
             let pc = match signal {
                 Signal::Logs => otlp::logs_proto(&pb),
-                _ => unreachable!(),
+                Signal::Traces => otlp::traces_proto(&pb),
+                Signal::Metrics => otlp::metrics_proto(&pb),
             };
             let pc = match pc {
                 Ok(c) => c,
@@ -214,7 +212,8 @@ fn run_otlp(line: &str) -> String {
             };
             let jc = match signal {
                 Signal::Logs => otlp::logs_json(&jb),
-                _ => unreachable!(),
+                Signal::Traces => otlp::traces_json(&jb),
+                Signal::Metrics => otlp::metrics_json(&jb),
             };
             let jc = match jc {
                 Ok(c) => c,
@@ -234,15 +233,15 @@ fn run_otlp(line: &str) -> String {
                     return fail(&pc.text, format!("property-missing-from-attributes:{}", Sexp::str(k)));
                 }
             }
-            let end = match d.extent {
-                ExtentD::None => None,
-                ExtentD::Point(t) => Some(t),
-                ExtentD::Range(_, b) => Some(b),
+            // timestamps must fit the 64-bit nanosecond fields (F6)
+            let stamps: Vec<case::TsD> = match (d.extent, signal) {
+                (ExtentD::None, _) => vec![],
+                (ExtentD::Point(t), _) => vec![t],
+                (ExtentD::Range(_, b), Signal::Logs) => vec![b],
+                (ExtentD::Range(a, b), _) => vec![a, b],
             };
-            if let Some(t) = end {
-                if t.unix_nanos() > u64::MAX as u128 {
-                    return fail(&pc.text, "timestamp-does-not-fit-the-64-bit-nanosecond-field".into());
-                }
+            if stamps.iter().any(|t| t.unix_nanos() > u64::MAX as u128) {
+                return fail(&pc.text, "timestamp-does-not-fit-the-64-bit-nanosecond-field".into());
             }
             pc.text
         }
